@@ -369,6 +369,12 @@ func (g *Gen) twoAssetsProgram() *GProgram {
 			Origin: &GFnCall{Name: "balance", Args: []*GExpr{acct("a"), {Kind: XAsset, S: x}}}})
 		g.prog.Stmts = append(g.prog.Stmts, &GStmt{Kind: StCall, Call: &GFnCall{Name: "set_tx_meta", Args: []*GExpr{{Kind: XString, S: "seen"}, {Kind: XVar, S: "seen"}}}})
 	}
+	if g.r.Chance(1, 3) {
+		// a second origin on the SAME account for the OTHER asset: what is known about one says nothing about the other
+		g.prog.Vars = append(g.prog.Vars, &GVarDecl{Type: "monetary", Name: "seen2",
+			Origin: &GFnCall{Name: "balance", Args: []*GExpr{acct("a"), {Kind: XAsset, S: y}}}})
+		g.prog.Stmts = append(g.prog.Stmts, &GStmt{Kind: StCall, Call: &GFnCall{Name: "set_tx_meta", Args: []*GExpr{{Kind: XString, S: "seen2"}, {Kind: XVar, S: "seen2"}}}})
+	}
 	send := func(asset string) {
 		n := bi(int64(1 + g.r.Intn(12)))
 		var src *GSource = srcAcct("a")
@@ -398,6 +404,30 @@ func (g *Gen) varReuseProgram(mode int, tail bool) *GProgram {
 	g.prog.Vars = append(g.prog.Vars, &GVarDecl{Type: "monetary", Name: "r"})
 	g.rawVars["r"] = asset + " " + n.String()
 	use := func() *GExpr { return &GExpr{Kind: XVar, S: "r"} }
+	if mode == 3 {
+		// the variable is the LEFT operand of a difference (or a sum) - as an overdraft limit, a cap or the
+		// amount sent - and is used again afterwards: an operation must not write into its operands
+		q := bi(int64(g.r.Intn(80)))
+		g.prog.Vars = append(g.prog.Vars, &GVarDecl{Type: "monetary", Name: "q"})
+		g.rawVars["q"] = asset + " " + q.String()
+		op := g.r.Pick([]string{"-", "-", "+"})
+		diff := func() *GExpr { return &GExpr{Kind: XInfix, Op: op, A: use(), B: &GExpr{Kind: XVar, S: "q"}} }
+		n1, n2 := bi(int64(g.r.Intn(60))), bi(int64(g.r.Intn(60)))
+		switch g.r.Intn(3) {
+		case 0:
+			g.prog.Stmts = append(g.prog.Stmts, &GStmt{Kind: StSend, Sent: &GSent{E: lit(asset, n1)}, Src: &GSource{Kind: SrcOverdraft, E: acct("b"), Bounded: diff()}, Dst: dstAcct("c")})
+		case 1:
+			g.prog.Stmts = append(g.prog.Stmts, &GStmt{Kind: StSend, Sent: &GSent{E: lit(asset, n1)}, Src: &GSource{Kind: SrcInorder, Subs: []*GSource{{Kind: SrcCapped, Cap: diff(), From: srcAcct("a")}, srcAcct("world")}}, Dst: dstAcct("c")})
+		default:
+			g.prog.Stmts = append(g.prog.Stmts, &GStmt{Kind: StCall, Call: &GFnCall{Name: "set_tx_meta", Args: []*GExpr{{Kind: XString, S: "d"}, diff()}}})
+		}
+		g.prog.Stmts = append(g.prog.Stmts, &GStmt{Kind: StSend, Sent: &GSent{E: lit(asset, n2)}, Src: &GSource{Kind: SrcOverdraft, E: acct("b"), Bounded: use()}, Dst: dstAcct("d")})
+		if g.r.Chance(1, 2) {
+			g.prog.Stmts = append(g.prog.Stmts, &GStmt{Kind: StSend, Sent: &GSent{E: use()}, Src: srcAcct("world"), Dst: dstAcct("e-x_1")})
+		}
+		g.prog.Stmts = append(g.prog.Stmts, &GStmt{Kind: StCall, Call: &GFnCall{Name: "set_tx_meta", Args: []*GExpr{{Kind: XString, S: "r"}, use()}}})
+		return g.prog
+	}
 	switch mode % 3 {
 	case 0: // two saves of the same variable, then the accounts are drawn
 		g.prog.Stmts = append(g.prog.Stmts,
@@ -962,11 +992,23 @@ func (g *Gen) remainingFirstProgram() *GProgram {
 			als = []*GAllot{{Kind: AlRatio, E: g.ratio(bi(p1), bi(den))}, {Kind: AlRemaining}, {Kind: AlRatio, E: g.ratio(bi(p2), bi(den))}}
 		}
 	}
+	n := int64(5 + g.r.Intn(40))
+	if g.r.Chance(1, 3) {
+		// the mirror image: several plain sources, a DESTINATION allotment whose `remaining kept` share is
+		// written first or in the middle - what is kept is withheld from the sources next in line there
+		dal := []*GDestItem{{Allot: &GAllot{Kind: AlRemaining}, To: &GKod{Kept: true}},
+			{Allot: &GAllot{Kind: AlRatio, E: g.ratio(bi(p1), bi(den))}, To: &GKod{To: dstAcct("x")}}}
+		if g.r.Chance(1, 2) && p1+1 < den {
+			dal = append([]*GDestItem{{Allot: &GAllot{Kind: AlRatio, E: g.ratio(bi(1), bi(den))}, To: &GKod{To: dstAcct("y")}}}, dal...)
+		}
+		g.prog.Stmts = append(g.prog.Stmts, &GStmt{Kind: StSend, Sent: &GSent{E: lit(asset, bi(n))},
+			Src: &GSource{Kind: SrcInorder, Subs: []*GSource{srcAcct("a"), srcAcct("b"), srcAcct("c")}}, Dst: &GDest{Kind: DstAllot, Items: dal}})
+		return g.prog
+	}
 	src := &GSource{Kind: SrcAllot}
 	for i, al := range als {
 		src.Items = append(src.Items, &GSrcItem{Allot: al, From: srcAcct(names[i%3])})
 	}
-	n := int64(5 + g.r.Intn(40))
 	var dst *GDest
 	switch g.r.Intn(3) {
 	case 0:
@@ -977,5 +1019,50 @@ func (g *Gen) remainingFirstProgram() *GProgram {
 		dst = &GDest{Kind: DstAllot, Items: []*GDestItem{{Allot: &GAllot{Kind: AlRatio, E: g.ratio(bi(1), bi(2))}, To: &GKod{To: dstAcct("x")}}, {Allot: &GAllot{Kind: AlRemaining}, To: &GKod{To: dstAcct("y")}}}}
 	}
 	g.prog.Stmts = append(g.prog.Stmts, &GStmt{Kind: StSend, Sent: &GSent{E: lit(asset, bi(n))}, Src: src, Dst: dst})
+	return g.prog
+}
+
+// mismatchSum: a sum or difference of two monetaries of DIFFERENT assets, one of them possibly zero,
+// as the amount of a send, a cap or a metadata value: a mismatch whatever the amounts - nothing may be
+// posted in either asset.
+func (g *Gen) mismatchSumProgram() *GProgram {
+	a1, a2 := "USD/2", "EUR/2"
+	if g.r.Chance(1, 2) {
+		a1, a2 = "USD", "COIN/2"
+	}
+	g.asset = a1
+	g.smallBalances([]string{"a", "b"}, a1, 40)
+	zero := func(p, q int) *big.Int {
+		if g.r.Chance(p, q) {
+			return bi(0)
+		}
+		return bi(int64(1 + g.r.Intn(40)))
+	}
+	g.prog.Vars = append(g.prog.Vars, &GVarDecl{Type: "monetary", Name: "base"}, &GVarDecl{Type: "monetary", Name: "bonus"})
+	g.rawVars["base"] = a1 + " " + zero(2, 3).String()
+	g.rawVars["bonus"] = a2 + " " + zero(1, 4).String()
+	var l, r *GExpr
+	switch g.r.Intn(3) {
+	case 0:
+		l, r = lit(a1, zero(2, 3)), &GExpr{Kind: XVar, S: "bonus"}
+	case 1:
+		l, r = &GExpr{Kind: XVar, S: "base"}, &GExpr{Kind: XVar, S: "bonus"}
+	default:
+		l, r = lit(a1, zero(2, 3)), lit(a2, zero(1, 4))
+	}
+	if g.r.Chance(1, 4) {
+		l, r = r, l
+	}
+	sum := &GExpr{Kind: XInfix, Op: g.r.Pick([]string{"+", "+", "-"}), A: l, B: r}
+	switch g.r.Intn(4) {
+	case 0, 1:
+		g.prog.Stmts = append(g.prog.Stmts, &GStmt{Kind: StSend, Sent: &GSent{E: sum}, Src: srcAcct(g.r.Pick([]string{"world", "a"})), Dst: dstAcct("c")})
+	case 2:
+		g.prog.Stmts = append(g.prog.Stmts, &GStmt{Kind: StSend, Sent: &GSent{E: lit(a1, bi(int64(g.r.Intn(30))))},
+			Src: &GSource{Kind: SrcInorder, Subs: []*GSource{{Kind: SrcCapped, Cap: sum, From: srcAcct("a")}, srcAcct("world")}}, Dst: dstAcct("c")})
+	default:
+		g.prog.Stmts = append(g.prog.Stmts, &GStmt{Kind: StSend, Sent: &GSent{E: lit(a1, bi(5))}, Src: srcAcct("world"), Dst: dstAcct("c")},
+			&GStmt{Kind: StCall, Call: &GFnCall{Name: "set_tx_meta", Args: []*GExpr{{Kind: XString, S: "sum"}, sum}}})
+	}
 	return g.prog
 }
